@@ -1,148 +1,10 @@
 // vrun is the single binary of the verification harness: supervisor, child
-// worker and replayer.  Usage:
-//
-//	vrun super  <Cxx> <quick|thorough> [--replay file]
-//	vrun child  <Cxx> <tier> --shard k --of n --seed s --out dir [--only unit] [--percase] [--skip file] [--tag t]
-//	vrun list
-//	vrun selfcheck
+// worker and replayer (see internal/cli for the modes).
 package main
 
 import (
-	"fmt"
-	"os"
-	"path/filepath"
-	"strconv"
-	"strings"
-
-	"verif/internal/engine"
-	"verif/internal/selfcheck"
+	"verif/internal/cli"
 	_ "verif/internal/props"
 )
 
-func envInt(name string, def int) int {
-	if v := os.Getenv(name); v != "" {
-		if n, err := strconv.Atoi(v); err == nil {
-			return n
-		}
-	}
-	return def
-}
-
-func main() {
-	if len(os.Args) < 2 {
-		fmt.Fprintln(os.Stderr, "usage: vrun super|child|list ...")
-		os.Exit(2)
-	}
-	switch os.Args[1] {
-	case "list":
-		for _, id := range engine.IDs() {
-			fmt.Println(id)
-		}
-	case "selfcheck":
-		if err := selfcheck.Run(os.Stdout); err != nil {
-			fmt.Println("selfcheck FAILED:", err)
-			os.Exit(1)
-		}
-		fmt.Println("selfcheck ok")
-	case "super":
-		if len(os.Args) < 4 {
-			fmt.Fprintln(os.Stderr, "usage: vrun super Cxx tier [--replay file]")
-			os.Exit(2)
-		}
-		p, err := engine.Lookup(os.Args[2])
-		if err != nil {
-			fmt.Printf("INCONCLUSIVE property=%s reason=%v\n", os.Args[2], err)
-			os.Exit(2)
-		}
-		tier := os.Args[3]
-		if tier != "quick" && tier != "thorough" {
-			fmt.Fprintln(os.Stderr, "tier must be quick or thorough")
-			os.Exit(2)
-		}
-		replay := ""
-		for i := 4; i < len(os.Args); i++ {
-			if os.Args[i] == "--replay" && i+1 < len(os.Args) {
-				replay = os.Args[i+1]
-				i++
-			}
-		}
-		seed := uint64(1)
-		if v := os.Getenv("VERIF_SEED"); v != "" {
-			if n, err := strconv.ParseInt(v, 10, 64); err == nil {
-				seed = uint64(n)
-			}
-		}
-		exe := os.Getenv("VERIF_CHILD_EXE")
-		if exe == "" {
-			exe, _ = os.Executable()
-		}
-		verifDir := os.Getenv("VERIF_DIR")
-		if verifDir == "" {
-			verifDir = "/verif"
-		}
-		repo := os.Getenv("VERIF_REPO")
-		if repo == "" {
-			repo = "/repo"
-		}
-		code := engine.RunSuper(engine.SuperOpts{Prop: p, Tier: tier, Seed: seed, Jobs: envInt("VERIF_JOBS", 16),
-			VerifDir: verifDir, Exe: exe, Replay: replay, RepoDir: repo}, os.Stdout)
-		os.Exit(code)
-	case "child":
-		if len(os.Args) < 4 {
-			os.Exit(2)
-		}
-		p, err := engine.Lookup(os.Args[2])
-		if err != nil {
-			fmt.Fprintln(os.Stderr, err)
-			os.Exit(2)
-		}
-		o := engine.ChildOpts{Prop: p, Tier: os.Args[3], Seed: 1, Of: 1}
-		for i := 4; i < len(os.Args); i++ {
-			a := os.Args[i]
-			next := func() string {
-				i++
-				if i < len(os.Args) {
-					return os.Args[i]
-				}
-				return ""
-			}
-			switch a {
-			case "--shard":
-				o.Shard, _ = strconv.Atoi(next())
-			case "--of":
-				o.Of, _ = strconv.Atoi(next())
-			case "--seed":
-				o.Seed, _ = strconv.ParseUint(next(), 10, 64)
-			case "--out":
-				o.OutDir = next()
-			case "--only":
-				o.Only = next()
-			case "--percase":
-				o.PerCase = true
-			case "--tag":
-				o.Tag = next()
-			case "--skip":
-				b, err := os.ReadFile(next())
-				if err == nil {
-					o.Skip = map[string]bool{}
-					for _, l := range strings.Split(string(b), "\n") {
-						if l != "" {
-							o.Skip[l] = true
-						}
-					}
-				}
-			}
-		}
-		if o.OutDir == "" {
-			o.OutDir = filepath.Join(os.TempDir(), "vrun-out")
-			os.MkdirAll(o.OutDir, 0o755)
-		}
-		if v := os.Getenv("VERIF_BUDGET_S"); v != "" {
-			o.BudgetS, _ = strconv.ParseFloat(v, 64)
-		}
-		engine.RunChild(o)
-	default:
-		fmt.Fprintln(os.Stderr, "unknown mode", os.Args[1])
-		os.Exit(2)
-	}
-}
+func main() { cli.Main() }
